@@ -144,6 +144,25 @@ def gen_pass(rng, thorough):
         nums.append(cur)
         cur += 1 + (rng.choice([1, 2, 3, 5, 7, 11]) if gaps and rng.random() < 0.06 else 0)
     phase = rng.randrange(5)
+    cyc = None
+    if n >= 20 and rng.random() < 0.3:
+        # gaps aligned with the PRT cycle: whole thermometer groups missing, so that reset lines become neighbours
+        # in the file, or reset lines themselves missing
+        cyc = rng.choice(["drop-thermometers", "drop-thermometers", "drop-reset", "drop-two-cycles"])
+        keep = []
+        resets = [x for x in nums if (x - phase) % 5 == 0]
+        victims = set()
+        pool = resets[1:-1] or resets
+        for r0 in rng.sample(pool, min(len(pool), rng.randint(1, 3))):
+            if cyc == "drop-thermometers":
+                victims |= {r0 + 1, r0 + 2, r0 + 3, r0 + 4}
+            elif cyc == "drop-two-cycles":
+                victims |= set(range(r0 + 1, r0 + 10))
+            else:
+                victims |= {r0}
+        nums = [x for x in nums if x not in victims]
+        n = len(nums)
+        gaps = True
     reset_val = rng.choice([0, 0, 0, 3, 49])
     base = rng.choice([180, 280, 330])
     prt = [reset_val if (x - phase) % 5 == 0 else base + ((x - phase) % 5) * 3 + rng.randint(-2, 2) for x in nums]
@@ -176,6 +195,8 @@ def gen_pass(rng, thorough):
     if rng.random() < 0.03:
         prt = [base + 5] * n
         kind.append("no-reset")
+    if cyc:
+        kind.append("cycle-gap:" + cyc)
     return nums, prt, ict, space, {"n": n, "n0": n0, "gaps": gaps, "phase": phase, "reset": reset_val, "kinds": sorted(set(kind))}
 
 
